@@ -301,7 +301,7 @@ let frames_family (dir : string) =
          | ("CL_ADD" | "RET_ADD" | "RET_PRIO" | "RET_WRITE" | "CL_TICK" | "RET_TICK" | "CL_DELAYEND" | "CL_WAIT"
            | "RET_WAIT" | "LS_DONE" | "HM_ITER" | "HM_ITERDROP" | "HM_POPDROP" | "BAR_TRIGGER" | "EARLY_DECIDE"
            | "EARLY_REQ" | "EARLY_EXIT" | "WC_SENT" | "WC_GOT" | "DIST_COLLECTED" | "DIST_DROP" | "DIST_DONE"
-           | "DBG" | "END" | "OUTERR" | "SHUTDOWN" | "LEAK" | "FAULT" | "RET_SHUTDOWN"), _ -> ()
+           | "DBG" | "END" | "OUTERR" | "SHUTDOWN" | "LEAK" | "FAULT" | "RET_SHUTDOWN" | "CL_HOLD" | "CL_RELEASE"), _ -> ()
          | _ -> failwith ("frames: unknown trace line: " ^ line))
     | [] -> ()
     | _ -> failwith ("bad line: " ^ line)) lines;
